@@ -1,0 +1,146 @@
+//! Verification hooks (feature `verif_hooks`, off by default).
+//!
+//! Thin forwarding wrappers that expose crate-private kernels to the
+//! out-of-tree verification harness. Nothing here changes behaviour.
+#![allow(missing_docs, clippy::too_many_arguments)]
+
+use core::num::NonZeroU128;
+
+use crate::{
+    iso::{IsoDate, IsoDateTime, IsoTime},
+    options::{
+        ArithmeticOverflow, DifferenceOperation, DifferenceSettings, ResolvedRoundingOptions,
+        RoundingIncrement, RoundingMode, RoundingOptions, ToStringRoundingOptions, Unit,
+        UnitGroup,
+    },
+    parsers::Precision,
+    rounding::{IncrementRounder, Round},
+    utils, TemporalResult,
+};
+
+// ==== date kernels ====
+
+pub fn epoch_days_from_gregorian_date(year: i32, month: u8, day: u8) -> i32 {
+    utils::epoch_days_from_gregorian_date(year, month, day)
+}
+
+pub fn ymd_from_epoch_milliseconds(ms: i64) -> (i32, u8, u8) {
+    utils::ymd_from_epoch_milliseconds(ms)
+}
+
+pub fn iso_days_in_month(year: i32, month: u8) -> u8 {
+    utils::iso_days_in_month(year, month)
+}
+
+pub fn mathematical_days_in_year(year: i32) -> i32 {
+    utils::mathematical_days_in_year(year)
+}
+
+pub fn epoch_days_for_year(year: i32) -> i32 {
+    utils::epoch_days_for_year(year)
+}
+
+pub fn iso_date_to_epoch_days(year: i32, month: i32, day: i32) -> i32 {
+    crate::iso::iso_date_to_epoch_days(year, month, day)
+}
+
+pub fn iso_date_balance(year: i32, month: i32, day: i32) -> IsoDate {
+    IsoDate::balance(year, month, day)
+}
+
+pub fn iso_time_balance(h: i64, mi: i64, s: i64, ms: i64, us: i64, ns: i64) -> (i32, IsoTime) {
+    IsoTime::balance(h, mi, s, ms, us, ns)
+}
+
+pub fn iso_date_time_within_limits(dt: &IsoDateTime) -> bool {
+    dt.is_within_limits()
+}
+
+pub fn iso_date_time_new_unchecked(date: IsoDate, time: IsoTime) -> IsoDateTime {
+    IsoDateTime::new_unchecked(date, time)
+}
+
+pub fn year_month_within_limits(year: i32, month: u8) -> bool {
+    crate::iso::year_month_within_limits(year, month)
+}
+
+pub fn iso_date_new_with_overflow(
+    year: i32,
+    month: u8,
+    day: u8,
+    overflow: ArithmeticOverflow,
+) -> TemporalResult<IsoDate> {
+    IsoDate::new_with_overflow(year, month, day, overflow)
+}
+
+// ==== rounding ====
+
+pub fn round_i128(x: i128, increment: NonZeroU128, mode: RoundingMode) -> TemporalResult<i128> {
+    Ok(IncrementRounder::<i128>::from_signed_num(x, increment)?.round(mode))
+}
+
+pub fn round_f64(x: f64, increment: NonZeroU128, mode: RoundingMode) -> TemporalResult<i128> {
+    Ok(IncrementRounder::<f64>::from_signed_num(x, increment)?.round(mode))
+}
+
+// ==== option resolvers ====
+
+/// (largest, smallest, increment, mode) of a resolved option record.
+pub type Resolved = (Unit, Unit, RoundingIncrement, RoundingMode);
+
+fn flatten(r: ResolvedRoundingOptions) -> Resolved {
+    (r.largest_unit, r.smallest_unit, r.increment, r.rounding_mode)
+}
+
+pub fn resolve_diff_settings(
+    options: DifferenceSettings,
+    since: bool,
+    unit_group: UnitGroup,
+    fallback_largest: Unit,
+    fallback_smallest: Unit,
+) -> TemporalResult<Resolved> {
+    let op = if since {
+        DifferenceOperation::Since
+    } else {
+        DifferenceOperation::Until
+    };
+    ResolvedRoundingOptions::from_diff_settings(
+        options,
+        op,
+        unit_group,
+        fallback_largest,
+        fallback_smallest,
+    )
+    .map(flatten)
+}
+
+pub fn resolve_duration_options(
+    options: RoundingOptions,
+    existing_largest: Unit,
+) -> TemporalResult<Resolved> {
+    ResolvedRoundingOptions::from_duration_options(options, existing_largest).map(flatten)
+}
+
+pub fn resolve_datetime_options(options: RoundingOptions) -> TemporalResult<Resolved> {
+    ResolvedRoundingOptions::from_datetime_options(options).map(flatten)
+}
+
+pub fn resolve_instant_options(options: RoundingOptions) -> TemporalResult<Resolved> {
+    ResolvedRoundingOptions::from_instant_options(options).map(flatten)
+}
+
+pub fn resolve_to_string_options(
+    options: &ToStringRoundingOptions,
+) -> TemporalResult<(Precision, Unit, RoundingMode, RoundingIncrement)> {
+    options
+        .resolve()
+        .map(|r| (r.precision, r.smallest_unit, r.rounding_mode, r.increment))
+}
+
+pub fn validate_increment(
+    increment: RoundingIncrement,
+    dividend: u64,
+    inclusive: bool,
+) -> TemporalResult<()> {
+    increment.validate(dividend, inclusive)
+}
